@@ -140,6 +140,9 @@ pub fn windows(s: &Snap) -> Vec<Window> {
             } else {
                 (f64::INFINITY, f64::INFINITY)
             };
+            // a finished train has left the model at the time of its last node: a tail that never "cleared" into the next link
+            // (terminal link shorter than the train) is out of every link from then on
+            let (front_exit, end) = if t.finished && last_time.is_finite() { (front_exit.min(last_time), end.min(last_time)) } else { (front_exit, end) };
             out.push(Window { train: ti + 1, link: a.link, start: a.time, clear_entry, front_exit, end, spacing: t.spacing, terminates: k + 1 == arrives.len() });
         }
     }
@@ -648,6 +651,11 @@ fn judge(which: &str, t: &Topo, sc: &Scenario, ex: &Exec, checks: &mut u64) -> F
 
 fn judge_inner(which: &str, t: &Topo, sc: &Scenario, ex: &Exec, checks: &mut u64) -> Fails {
     let mut f: Fails = vec![];
+    if ex.est_err.is_some() {
+        // a train or its estimated-time network could not be built: outside the premise (inputs accepted by
+        // estimated-time construction); run_dispatch was not called
+        return f;
+    }
     if which == "C04" {
         for s in &ex.snaps {
             f.extend(oracle_c04(t, s, checks));
